@@ -88,6 +88,7 @@ def match_known(known, prop, v):
         if 'kind' in k and k['kind'] != v['kind']: continue
         if 'msg' in k and not re.search(k['msg'], v['msg']): continue
         if 'site' in k and not re.search(k['site'], v['site']): continue
+        if 'param_eq' in k and not all(len(v['params']) > i and v['params'][i] == x for i, x in k['param_eq']): continue
         return k
     return None
 
@@ -180,7 +181,7 @@ def run_check(a, prop, spec, workdir, seed, t_start):
         g['tasks'] += 1
         for k, v in r['ended'].items(): g['ended'][k] = g['ended'].get(k, 0) + v
         for k, v in r['ubnotes'].items(): g['ubnotes'][k] = g['ubnotes'].get(k, 0) + v
-        g['viol'].extend(r['viol']); g['inconclusive'].extend(r['inconclusive'])
+        g['viol'].extend(r['viol']); g['inconclusive'].extend('%s [%s]' % (m, r['key']) for m in r['inconclusive'])
         g['reach'].update(r['reach']); g['funcs'].update(r['funcs']); g['externs'].update(r['externs'])
         if len(g['validation']) < inst['opts'].get('samples', 4) * 4: g['validation'].extend(r['validation'])
         big = len(queue) + inflight > a.jobs * 3
